@@ -6,6 +6,7 @@
   through `type_of%`.  Beside each theorem: a concrete input meeting its hypotheses.
 -/
 import PdbVerif.Proofs.FloatMargin
+import PdbVerif.Proofs.GenContacts
 
 namespace Props.C14K
 open Proofs.FloatMargin
@@ -38,5 +39,73 @@ example : InBox 10000 (ofMilli (-1000) 2000 3000) := inBox_ofMilli (by decide) (
 /-- a cutoff that is NOT a binary64 number, 4.3: `c` is its double, `n = 4300`; the hypothesis on `c` holds of the double of 4.3 -/
 example : |(4841369599423283 / 2 ^ 50 : ℝ) - ((4300 : ℤ) : ℝ) / 1000| ≤ u53 * (((4300 : ℤ) : ℝ) / 1000) := by
   rw [abs_le]; constructor <;> norm_num [u53]
+
+end Props.C14K
+
+/-! --------------------------------------------------------------------------------------------------------------------
+  APPENDED SECTION — translated residue code (tie #1 for C14).
+  `GenC._extend_contact_to_residue` and `GenC.get_contact_residues` (Gen/Contacts.lean) are regenerated from interface.py on every
+  run by py/translate_ext_contacts.py.  `list(set(dataA))` has an unspecified order in Python: the generated definitions take the
+  iteration order of sets as a PARAMETER `setOrder`, and the theorems hold for every order that keeps the elements (`SetOrderOK`;
+  every permutation does) — the result does not depend on it.  The regenerated definitions equal the hand models
+  `Model.extendToResidue`, `Model.contactResidueSets`, `Model.contactResiduePairs` the theorems of Props/C14.lean are about, for every
+  table and every argument combination.  Statements are those of Proofs/GenContacts.lean, restated through `type_of%`.
+-------------------------------------------------------------------------------------------------------------------- -/
+
+namespace Props.C14K
+open Proofs.GenContacts
+
+/-- `_extend_contact_to_residue(index1, only_backbone_atoms)` = `Model.extendToResidue`, for every admissible set order -/
+theorem genc_extend_contact_to_residue_eq_model : type_of% @Proofs.GenContacts.genc_extend_contact_to_residue_eq_model := @Proofs.GenContacts.genc_extend_contact_to_residue_eq_model
+/-- the result does not depend on the iteration order of `set(dataA)` -/
+theorem genc_extend_order_irrelevant : type_of% @Proofs.GenContacts.genc_extend_order_irrelevant := @Proofs.GenContacts.genc_extend_order_irrelevant
+/-- `extension_is_closure` of Props/C14.lean, for the generated function -/
+theorem genc_extend_is_closure : type_of% @Proofs.GenContacts.genc_extend_is_closure := @Proofs.GenContacts.genc_extend_is_closure
+/-- `get_contact_atoms(...)` (the call `get_contact_residues` makes, and `extend_to_residue=True`) = `Model.contactAtoms` -/
+theorem genc_get_contact_atoms_eq_model : type_of% @Proofs.GenContacts.genc_get_contact_atoms_eq_model := @Proofs.GenContacts.genc_get_contact_atoms_eq_model
+/-- `get_contact_residues(...)` = `Model.contactResiduePairs` / `Model.contactResidueSets` (both return forms) -/
+theorem genc_get_contact_residues_eq_model : type_of% @Proofs.GenContacts.genc_get_contact_residues_eq_model := @Proofs.GenContacts.genc_get_contact_residues_eq_model
+/-- every permutation is an admissible iteration order of a set -/
+theorem setOrderOK_of_perm : type_of% @Proofs.GenContacts.setOrderOK_of_perm := @Proofs.GenContacts.setOrderOK_of_perm
+/-- the accessor the translation uses for `self.get(cols, rowID=[...])` is the C03 selection (`Spec.selected`) with that condition -/
+theorem select_rowID_is_c03 : type_of% @Proofs.GenContacts.select_rowID_is_c03 := @Proofs.GenContacts.select_rowID_is_c03
+/-- … and for `self.get(cols, chainID=c, resName=n, resSeq=s)` -/
+theorem select_residue_is_c03 : type_of% @Proofs.GenContacts.select_residue_is_c03 := @Proofs.GenContacts.select_residue_is_c03
+
+/-! ### non-vacuity: residues sharing a number but differing in name or chain (kernel evaluation, exact rationals) -/
+
+def gAtom (name res ch : String) (seq : Int) (x y z : Rat) : Py.Atom :=
+  { serial := 0, name := name.toList, altLoc := [], resName := res.toList, chainID := ch.toList, resSeq := seq, iCode := [],
+    x := x, y := y, z := z, occ := 1, temp := 0, element := [], model := 0 }
+
+/-- residue number 7 four times: ALA 7 of chain A (atoms 0, 1), GLY 7 of chain A (atom 2), ALA 7 of chain B (atoms 3, 4);
+    atom 5 is ALA -7 of chain B; atoms 0 and 3 are 3 A apart, everything else is far away -/
+def gExRes : List Py.Atom :=
+  [ gAtom "CA" "ALA" "A" 7 0 0 0, gAtom "CB" "ALA" "A" 7 40 0 0, gAtom "CA" "GLY" "A" 7 80 0 0,
+    gAtom "CA" "ALA" "B" 7 3 0 0, gAtom "O"  "ALA" "B" 7 90 0 0, gAtom "N"  "ALA" "B" (-7) 95 0 0 ]
+
+def gArgsRes : Model.ContactArgs :=
+  { cutoff := 3, allchains := false, chain1 := "A".toList, chain2 := "B".toList, extend := false, bb := false, noH := false, retPairs := true }
+
+example : SetOrderOK List.reverse := setOrderOK_reverse
+/-- the closure of {atom 0, atom 3}: ALA 7 of chain A and ALA 7 of chain B, not GLY 7 — for both iteration orders of the set -/
+example : (match GenC._extend_contact_to_residue id gExRes [0, 3] false with | .ok l => l == [0, 1, 3, 4] | _ => false) = true := by
+  decide +kernel
+example : (match GenC._extend_contact_to_residue List.reverse gExRes [0, 3] false with | .ok l => l == [0, 1, 3, 4] | _ => false) = true := by
+  decide +kernel
+/-- … only backbone atoms when contacts are restricted to the backbone -/
+example : (match GenC._extend_contact_to_residue id gExRes [0, 3] true with | .ok l => l == [0, 3, 4] | _ => false) = true := by
+  decide +kernel
+/-- residue pair map at 3 A: ALA 7 of A against ALA 7 of B -/
+example : (match GenC.get_contact_residues id gExRes 3 false "A".toList "B".toList false false true with
+    | .ok (.inl d) => d == [(("A".toList, 7, "ALA".toList), [("B".toList, 7, "ALA".toList)])] | _ => false) = true := by decide +kernel
+/-- per-chain residues -/
+example : (match GenC.get_contact_residues id gExRes 3 false "A".toList "B".toList false false false with
+    | .ok (.inr d) => d == [("A".toList, [("A".toList, 7, "ALA".toList)]), ("B".toList, [("B".toList, 7, "ALA".toList)])] | _ => false) = true := by
+  decide +kernel
+/-- … equal to the model's (an instance of the theorem) -/
+example : GenC.get_contact_residues id gExRes 3 false "A".toList "B".toList false false true =
+    (Model.contactResiduePairs gExRes gArgsRes).map Sum.inl :=
+  genc_get_contact_residues_eq_model id setOrderOK_id gExRes gArgsRes
 
 end Props.C14K
